@@ -60,6 +60,13 @@ func cmdVerify(args []string) {
 		fmt.Println("PROTOCOL close-only discipline broken:", e)
 	}
 	re := regexp.MustCompile(*fre)
+	for k, fc := range w.contracts {
+		if !fc.Extern && !fc.AssumeOnly && !fc.Inline && len(fc.Props) == 0 {
+			if fn := w.lookupFunc(k); fn != nil && len(fn.Blocks) > 0 {
+				fmt.Printf("NOTE contract of %s serves no property: used at call sites but verified by no check\n", k)
+			}
+		}
+	}
 	var keys []string
 	for k, fc := range w.contracts {
 		if fc.Extern || (fc.AssumeOnly && !fc.SingleTx) || fc.Inline {
